@@ -11,6 +11,7 @@ pub mod clock;
 pub mod net;
 pub mod sched;
 pub mod common;
+pub mod parts;
 // pub mod wire;
 // pub mod sim_reader;
 // pub mod sim_writer;
@@ -18,7 +19,7 @@ pub mod common;
 // pub mod sim_dds;
 // pub mod sim_disc;
 // pub mod lease;
-// pub mod qosx;
+pub mod qosx;
 // pub mod wiregen;
 // pub mod plcdr;
 // pub mod hostile;
